@@ -112,11 +112,35 @@ def one(item, slot, env):
     if rc != 0:
         res['error'] = (out + err)[-500:]
         return res
+    sh(['touch', 'yarel/build.rs'], cwd=wt)      # build.rs lists the test scripts: new ones are only seen when it runs again
     ok, err = build(wt)
     res['builds'] = ok
     if not ok:
         res['error'] = err
         return res
+    # feature additions: the demonstration must deviate from expected.txt, the control must match control.expected.txt
+    for prof in ('debug', 'release'):
+        binp = os.path.join(wt, 'target', prof, 'yarel-cli')
+        for stem, key in (('demo', 'demo_matches_expected_'), ('control', 'control_matches_')):
+            exp = os.path.join(d, 'expected.txt' if stem == 'demo' else 'control.expected.txt')
+            src = [f for f in (stem + '.sh', stem + '.yl') if os.path.exists(os.path.join(d, f))]
+            if not (os.path.exists(exp) and src):
+                continue
+            tmp = tempfile.mkdtemp(prefix='yarel_demo_')
+            try:
+                for f in os.listdir(d):
+                    if os.path.isfile(os.path.join(d, f)):
+                        shutil.copy(os.path.join(d, f), tmp)
+                    else:
+                        shutil.copytree(os.path.join(d, f), os.path.join(tmp, f))
+                cmd = ['bash', src[0], binp] if src[0].endswith('.sh') else [binp, src[0]]
+                rc, out, err = sh(cmd, cwd=tmp, timeout=180, env=dict(os.environ, BIN=binp, YAREL=binp))
+                want = open(exp).read().strip()
+                norm = lambda x: re.sub(r'0x[0-9a-f]{6,}', '0xADDR', x).strip()
+                res[key + prof] = norm(want) in (norm(out), norm(out + err), norm(out + '\n' + err), norm(out + err + '\n--exit %s' % rc))
+                res[key.replace('matches', 'out') + prof] = (out + '\n--stderr--\n' + err)[-600:] + '\n--exit %s' % rc
+            finally:
+                shutil.rmtree(tmp, ignore_errors=True)
     differs = []
     for prof in ('debug', 'release'):
         c, demos = run_demo(d, CLEAN[prof])
@@ -169,8 +193,9 @@ try:
     for res in par.pool_map(items, one, a.j):
         prev[res['id']] = res
         own = res['property'] in res.get('fired', [])
-        print('%-7s applies=%s builds=%s suite=%s differs=%s fired=%s broken=%s %s' % (
+        print('%-7s applies=%s builds=%s suite=%s differs=%s demo=exp:%s/%s ctl:%s/%s fired=%s broken=%s %s' % (
             res['id'], res.get('applies'), res.get('builds'), res.get('suite_ok'), res.get('demo_differs'),
+            res.get('demo_matches_expected_debug'), res.get('demo_matches_expected_release'), res.get('control_matches_debug'), res.get('control_matches_release'),
             res.get('fired'), res.get('broken'), 'OWN' if own else ''), flush=True)
 finally:
     json.dump(sorted(prev.values(), key=lambda r: r['id']), open(a.results, 'w'), indent=1)
